@@ -30,7 +30,7 @@ def run(ctx):
     # outside C02's stated domain ("rulebooks whose logic emits only the row or its negation"):
     #  - catch-all: rows of `undo ~` rules are both a line and a negation;
     #  - %rewrite rulebooks: removal is implicit (the block is re-sent), neither the row nor its negation is emitted for a removed line
-    skip_names = {"catch-all", "rewrite", "rewrite-values", "ordered-rewrite", "rewrite-deep"}
+    skip_names = {"catch-all", "rewrite", "rewrite-values", "ordered-rewrite", "rewrite-deep", "rewrite-sandwich"}
     for prof in profiles:
         cat = cases.Catalog(ctx, prof)
         aux = cat.aux_file()
